@@ -74,6 +74,7 @@ def run_scenario(name):
     if name in ("import", "upgrade"):
         import evo.tools.settings  # noqa
         return
+    name = {"upgrade_reset_all": "reset_all", "upgrade_reset_subset": "reset_subset", "upgrade_set": "set"}.get(name, name)
     import evo.tools.settings  # noqa
     from evo import main_config
     other = os.path.join(os.path.dirname(os.environ["HOME"]), "other.json")
